@@ -675,3 +675,128 @@ def silence_logs():
         log_manager.set_level(logging.CRITICAL)
     except Exception:
         pass
+
+
+# ---------------------------------------------------------------------------
+# transformations of file syntax that must not change the meaning
+
+def _walk_values(e, dobjs, data, interleaved, fn):
+    """Re-emit the raw data of one segment value by value.  fn(dt, stored, e) -> new stored bytes;
+    for strings fn is given the raw bytes unchanged and offsets are re-packed by the caller."""
+    out = b""
+    if interleaved:
+        width = sum(SIZES[dt] for (_, (dt, _, _)) in dobjs)
+        nrows = len(data) // width if width else 0
+        pos = 0
+        for _ in range(nrows):
+            for (p, (dt, n, total)) in dobjs:
+                sz = SIZES[dt]
+                out += fn(dt, data[pos:pos + sz])
+                pos += sz
+        return out + data[pos:]
+    csize = sum((total if dt == T_STRING else n * SIZES[dt]) for (_, (dt, n, total)) in dobjs)
+    pos = 0
+    while csize > 0 and pos + csize <= len(data):
+        for (p, (dt, n, total)) in dobjs:
+            if dt == T_STRING:
+                offs = struct.unpack(e + "%dL" % n, data[pos:pos + 4 * n])
+                out += fn("offsets", offs)
+                pos += 4 * n
+                ln = offs[-1] if n else 0
+                out += data[pos:pos + ln]
+                pos += ln
+            else:
+                sz = SIZES[dt]
+                for _k in range(n):
+                    out += fn(dt, data[pos:pos + sz])
+                    pos += sz
+    return out + data[pos:]
+
+
+def transcode(segs, endians):
+    """Same content, segment i stored in byte order endians[i]."""
+    st = SpecState()
+    out = []
+    for s, e2 in zip(segs, endians):
+        st.apply_metadata(s)
+        st.nsegs += 1
+        dobjs = st.data_objects()
+        interleaved = bool(s.toc & TOC_INTERLEAVED) and all(dt != T_STRING for (_, (dt, _, _)) in dobjs)
+        e1 = s.e
+
+        def fn(dt, stored):
+            if dt == "offsets":
+                return struct.pack(e2 + "%dL" % len(stored), *stored)
+            return canon_to_stored(e2, dt, canon_to_stored(e1, dt, stored))
+        data = _walk_values(e1, dobjs, s.data, interleaved, fn) if dobjs else s.data
+        out.append(Seg(e=e2, toc=s.toc, version=s.version, entries=s.entries, data=data,
+                       next_mode=s.next_mode, next_val=s.next_val))
+    return out
+
+
+def explicit_form(segs):
+    """The fully explicit encoding of the same content: every segment starts a new object list
+    and restates every active object with its full index (or 'no data')."""
+    st = SpecState()
+    out = []
+    for s in segs:
+        st.apply_metadata(s)
+        st.nsegs += 1
+        props = {}
+        order_props = []
+        if s.entries is not None:
+            for x in s.entries:
+                if x.props:
+                    props[x.path] = x.props      # a path is listed at most once per segment
+        entries = []
+        for (p, hd) in st.active:
+            if hd:
+                dt, n, total = st.last_index[p]
+                idx = ("full", 28 if dt == T_STRING else 20, dt, 1, n, total)
+            else:
+                idx = None
+            entries.append(Entry(p, idx, props.get(p, [])))
+        out.append(Seg(e=s.e, toc=(s.toc | TOC_META | TOC_NEWLIST), version=s.version, entries=entries,
+                       data=s.data, next_mode=s.next_mode, next_val=s.next_val))
+    return out
+
+
+def read_lazy(data, raw_timestamps=True):
+    """TdmsFile.open + read_data(scaled=False) per channel -> tokens laid out as read_eager's"""
+    from nptdms import TdmsFile
+    import warnings
+    try:
+        with warnings.catch_warnings():
+            warnings.simplefilter("ignore")
+            with TdmsFile.open(io.BytesIO(data), raw_timestamps=raw_timestamps) as f:
+                toks = [TZ(int(f.tdms_version) if f.tdms_version is not None else 0)]
+                toks += obs_props_impl(f.properties)
+                groups = f.groups()
+                toks.append(TZ(len(groups)))
+                for g in groups:
+                    toks.append(TB(g.name.encode("utf-8", errors="surrogatepass")))
+                    toks += obs_props_impl(g.properties)
+                    chs = g.channels()
+                    toks.append(TZ(len(chs)))
+                    for ch in chs:
+                        toks += [TB(ch.name.encode("utf-8", errors="surrogatepass")),
+                                 TB(ch.group_name.encode("utf-8", errors="surrogatepass")),
+                                 TB(ch.path.encode("utf-8", errors="surrogatepass")),
+                                 TZ(ch.data_type.enum_value if ch.data_type is not None else -1), TZ(len(ch))]
+                        toks += obs_props_impl(ch.properties)
+                        if ch.data_type is None:
+                            toks.append(TZ(2))
+                            continue
+                        d = ch.read_data(scaled=False)
+                        if isinstance(d, dict):
+                            toks += [TZ(1), TZ(len(d))]
+                            for sid in sorted(d):
+                                vals = canon_array_values(d[sid])
+                                toks += [TZ(int(sid)), TZ(len(vals))] + [TB(v) for v in vals]
+                        else:
+                            vals = canon_array_values(d)
+                            toks += [TZ(0), TZ(len(vals))] + [TB(v) for v in vals]
+                toks += obs_status_impl(f)
+                return toks, None
+    except Exception as ex:      # noqa: BLE001
+        return None, ex
